@@ -30,6 +30,7 @@
  */
 #define _GNU_SOURCE
 #include "common.h"
+#include "guard.h"
 #include <sys/mman.h>
 #include <unistd.h>
 #include "rolling_hashx.h"
@@ -299,6 +300,8 @@ main(int argc, char **argv)
         long nops = atol(argv[3]);
         uint32_t maxlen = (uint32_t) strtoul(argv[4], 0, 0);
         FILE *ops = fopen(argv[5], "w"), *res = fopen(argv[6], "w");
+        guard_setup();
+        guard_out = res;
         if (!ops || !res) {
                 perror("open");
                 return 2;
@@ -391,7 +394,15 @@ main(int argc, char **argv)
                         uint32_t off = 0xdeadbeef, boff = 0xdeadbeef;
                         int ret = -1, bret = -1;
                         cur_scan = sel_scan;
-                        isal_rolling_hash2_run(st, buf, len, mask, trig, &off, &ret);
+                        if (guard_mode) {       /* C08: the scanned bytes end (mode 1) / begin (mode 2) at an unmapped page */
+                                uint8_t *gb = guard_alloc_al(len ? len : 1, 0);
+                                memcpy(gb, buf, len);
+                                guard_op = "run";
+                                guard_opno = nrun;
+                                isal_rolling_hash2_run(st, gb, len, mask, trig, &off, &ret);
+                                guard_free(gb);
+                        } else
+                                isal_rolling_hash2_run(st, buf, len, mask, trig, &off, &ret);
                         cur_scan = _rolling_hash2_run_until_base;
                         isal_rolling_hash2_run(ref, buf, len, mask, trig, &boff, &bret);
                         cur_scan = sel_scan;
